@@ -1,5 +1,6 @@
 // C11 — interrupted or failing stores never validate a mixed image silently (fault enumeration).
 #include "props/C10.hpp"
+#include <memory>
 using namespace ps;
 
 // op: 0 store 1 store_part 2 validate 3 fetch 4 fetch_part 5 reset
@@ -98,13 +99,30 @@ static void run_fault(const Case &c) {
     M().clear_run();
     if (persistent_validate(&in.st) != PERSISTENT_ACCESS_SUCCESS) { F(c, "harness:previous-image-invalid", "the installed previous image does not validate"); return; }
     M().clear_run();
-    M().fault_at = c.point; M().fault_kind = c.fkind;
+    M().fault_at = c.point; M().fault_kind = c.fkind % 10;
+    // fault kinds 10..14: as 0..4, but the driver is re-entrant: before it answers the faulty call it validates a second, valid record
+    // (a mirror kept behind the instance's region on the same medium) through the library - successfully
+    static PersistentStorage *mirror_st; static PersistentAccess mirror_rc;
+    Config mc = c.cfg; mc.place = c.cfg.data_addr() + (uint32_t)c.cfg.size + 16; mc.aux = -1; mc.order = 0;
+    std::unique_ptr<Instance> mirror;
+    if (c.fkind >= 10) {
+        uint32_t lo = M().lo, hi = M().hi;
+        Bytes mimg(mc.size); for (size_t i = 0; i < mimg.size(); i++) mimg[i] = (uint8_t)(0x41 + 3 * i);
+        memcpy(M().mem + mc.data_addr(), mimg.data(), mc.size);
+        uint32_t s = ref_sum(mc, mimg.data());
+        if (mc.cs == 2) memcpy(M().mem + mc.place, &s, 4); else { uint16_t s16 = (uint16_t)s; memcpy(M().mem + mc.place, &s16, 2); }
+        mirror.reset(new Instance(mc));
+        M().lo = lo; M().hi = hi;                 // the region under observation stays the primary's
+        mirror_st = &mirror->st; mirror_rc = PERSISTENT_ACCESS_IO_ERROR;
+        M().nested = [] { mirror_rc = persistent_validate(mirror_st); };
+    }
     vp::Block dst(c.cfg.size + 1);
     PersistentAccess rc;
     if (VP_BUDGET(64 + 8 * c.cfg.size)) { rc = do_op(c, in, newpart, dst.p); vp::budget().armed = false; } else { F(c, "no-progress", "operation keeps calling the medium after a fault"); return; }
+    if (c.fkind >= 10 && M().nested_ran && mirror_rc != PERSISTENT_ACCESS_SUCCESS) { F(c, "harness:mirror-invalid", "the mirror record does not validate"); return; }
     vp::count();
     if (!M().fault_hit) { vp::stats().dontcare++; return; }
-    if (rc != PERSISTENT_ACCESS_IO_ERROR) { F(c, "not-reported", vp::fmt("medium call %ld %s but the operation returned %d instead of IO_ERROR", c.point, c.fkind == 0 ? "failed" : "transferred short", (int)rc)); return; }
+    if (rc != PERSISTENT_ACCESS_IO_ERROR) { F(c, "not-reported", vp::fmt("medium call %ld %s but the operation returned %d instead of IO_ERROR", c.point, c.fkind % 10 == 0 ? "failed" : "transferred short", (int)rc)); return; }
     // the medium works again: validation by the same instance succeeds only if the checksum on the medium matches the data on the medium
     M().clear_run();
     PersistentAccess v = persistent_validate(&in.st);
@@ -149,12 +167,13 @@ static void run_config(const Config &cfg, uint64_t seed, bool thorough) {
         std::set<long> idxs;
         if (calls <= 64) for (long k = 0; k < (long)calls; k++) idxs.insert(k);
         else for (long k : {0L, 1L, 2L, (long)calls / 2, (long)calls - 2, (long)calls - 1}) idxs.insert(k);
-        for (long k : idxs) for (int kind = 0; kind < 5; kind++) {
+        for (long k : idxs) for (int kind : {0, 1, 2, 3, 4, 10, 11}) {
+            if (kind >= 10 && (uint64_t)cfg.data_addr() + 2 * cfg.size + 64 > MSIZE) continue;
             c.point = k; c.fkind = kind; run_fault(c);
             if (k > 0) vp::nontrivial(vp::fnv(serc(c)));
             if (vp::want_sample()) vp::sample(serc(c));
         }
-        vp::cls(std::string("fault-points:") + opn[c.op], idxs.size() * 5);
+        vp::cls(std::string("fault-points:") + opn[c.op], idxs.size() * 7);
     }
 }
 
@@ -164,7 +183,7 @@ static void run() {
     size_t maxsize = a.thorough() ? 32 : 16;
     vp::stats().rule = vp::fmt("fault enumeration (images: random, zero from the first third on, or padded with 00/ff from the middle on): data size 1..%zu x placement {0,5} x 3 checksums x aux {none,0,1,2,size-1,size+1} ; per configuration every crash point (total octets the medium accepts before "
                                "the cut, i.e. every whole-write prefix and every torn position) of the full store and of partial stores, followed by validate+fetch on a fresh instance; and a single "
-                               "failing / short (n-1, 1, n-2^16, n-2^8) medium call at every call index (sampled for operations with more than 64 medium calls); of store, store_part, validate, fetch, fetch_part, reset, on an instance that validated the previous image before and validates again afterwards; plus data sizes 255..257, 65535..65537, 70000 with sampled crash points", maxsize);
+                               "failing / short (n-1, 1, n-2^16, n-2^8) medium call (also from a re-entrant driver that validates a mirror record through the library before it answers) at every call index (sampled for operations with more than 64 medium calls); of store, store_part, validate, fetch, fetch_part, reset, on an instance that validated the previous image before and validates again afterwards; plus data sizes 255..257, 65535..65537, 70000 with sampled crash points", maxsize);
     vp::stats().exhaustive = true;
     uint64_t idx = 0;
     for (size_t size = 1; size <= maxsize; size++)
